@@ -92,7 +92,8 @@ async def acallable_iterator(
 ) -> AsyncIterator[T]:
     subject = _awaitify(subject)
     value = await subject()
-    while value != sentinel:
+    # like the builtin, stop on the sentinel itself even if it does not compare equal
+    while not (value is sentinel or sentinel == value):
         yield value
         value = await subject()
 
